@@ -28,6 +28,8 @@ import (
 	"sync"
 	"testing"
 	"time"
+
+	"github.com/alephium/wormhole-fork/node/pkg/vaa"
 )
 
 const (
@@ -62,27 +64,55 @@ func c16Ids(dirSeed int64) []shID {
 
 func c16Tag(i int) string { return "w" + strconv.Itoa(i%c16Tags) }
 
-// payload length of (id, tag): mostly small, some a few KB, some tens of KB (memtable flushes / compactions
-// happen after a few thousand writes).
-func c16Plen(id shID, tag string) int {
-	h := sha256.Sum256([]byte("plen|" + id.String() + "|" + tag))
+// Versions.  Tags w0..w7; (w0,w1), (w2,w3), ... are PAIRS: the two versions of a pair written in one cycle carry the
+// same message body (timestamp, nonce, consistency level, payload) under another guardian set index and other
+// signature bytes, with the same number of signatures - the re-store the comment in db.StoreSignedVAA expects (own
+// quorum vs. gossip), and exactly as long as the entry it replaces.  The length of a version (payload length, number
+// of signatures) depends on the identifier and the pair only, not on the cycle, so a version written in a later cycle
+// is also as long as the same pair's versions of earlier cycles while all its bytes differ.  Versions of different
+// pairs have different lengths.  The cycle is woven into every variable field, so that the parent can tell from
+// returned bytes in which cycle they were written (logged as "wc").
+func c16Pair(tag string) int {
+	t, _ := strconv.Atoi(strings.TrimPrefix(tag, "w"))
+	return t / 2
+}
+
+// payload length / signature count of (id, pair): mostly small payloads, some a few KB, some tens of KB (memtable
+// flushes / compactions happen after a few thousand writes).
+func c16Shape(id shID, pair int) (plen int, nsig int) {
+	h := sha256.Sum256([]byte(fmt.Sprintf("shape|%s|%d", id.String(), pair)))
 	x := int(binary.BigEndian.Uint32(h[0:4]))
 	switch c := h[4] % 10; {
 	case c < 7:
-		return 40 + x%560
+		plen = 40 + x%560
 	case c < 9:
-		return 2000 + x%6000
+		plen = 2000 + x%6000
 	default:
-		return 20000 + x%40000
+		plen = 20000 + x%40000
 	}
+	return plen + pair, 1 + int(h[5]%3) // + pair: no two pairs of one identifier share a length by accident
 }
 
-// The bytes of (id, tag) written in a given cycle: the tag is what the specification sees (8 versions per
-// identifier, so that the history variable of Store.tla stays bounded); the cycle is woven into every other field,
-// so that the parent can tell from returned bytes in which cycle they were written (logged as "wc", used to
-// explain a rejection and to detect stores of the killed child that the parent failed to account).
 func c16Build(w *shWorld, id shID, tag string, cycle int) *vhVAA {
-	return w.build(id, fmt.Sprintf("%s@c%d", tag, cycle), c16Plen(id, tag))
+	plen, nsig := c16Shape(id, c16Pair(tag))
+	hb := sha256.Sum256([]byte(fmt.Sprintf("c16body|%s|%d|%d", id.String(), c16Pair(tag), cycle)))
+	hs := sha256.Sum256([]byte(fmt.Sprintf("c16sigs|%s|%s|%d", id.String(), tag, cycle)))
+	v := &vhVAA{Version: 1}
+	v.SetIndex = binary.BigEndian.Uint32(hs[0:4])
+	for i := 0; i < nsig; i++ {
+		sg := vhSig{Index: uint8(i)}
+		copy(sg.Sig[:], vhExpand(fmt.Sprintf("sig|%x|%d", hs[:12], i), 65))
+		v.Sigs = append(v.Sigs, sg)
+	}
+	v.Ts = 1600000000 + uint32(binary.BigEndian.Uint16(hb[2:4]))
+	v.Nonce = binary.BigEndian.Uint32(hb[4:8])
+	v.EChain = uint16(id.EC)
+	v.TChain = uint16(id.TC)
+	v.Emitter = w.addr(id.Em)
+	v.Seq = shSeqC(id.Seq)
+	v.CL = hb[8]
+	v.Payload = vhExpand(fmt.Sprintf("pl|%x", hb[:12]), plen)
+	return v
 }
 
 // the child's stream: position n of cycle c -> (index into the identifier table, tag).
@@ -312,8 +342,10 @@ func c16Dir(base string, dirIdx int, seed int64, cycles, maxStores int, maxRun t
 	w := shNewWorld()
 	wroteIn := map[[32]byte]int{} // hash of the bytes -> cycle they belong to
 	tab := make([]interface{}, len(ids))
+	vids := make([]vaa.VAAID, len(ids)) // computed once: shWorld is not safe for concurrent use
 	for i, id := range ids {
 		tab[i] = id.J()
+		vids[i] = w.vaaID(id)
 	}
 	// the parent creates the store and closes it cleanly
 	d, err := Open(dir)
@@ -420,26 +452,78 @@ func c16Dir(base string, dirIdx int, seed int64, cycles, maxStores int, maxRun t
 			return lines, st, ""
 		}
 		log("Reopen", map[string]interface{}{"who": "parent", "cycle": cyc}, map[string]interface{}{"ok": true, "err": ""})
-		for k, id := range ids {
-			b, err := d.GetSignedVAABytes(w.vaaID(id))
-			code, errs := "OK", ""
-			res := []interface{}{}
-			found := ""
-			if err == ErrVAANotFound {
-				code = "NotFound"
-			} else if err != nil {
-				code, errs = "Error", shErrStr(err)
-			} else {
-				c := w.classify(b)
-				if wc, ok := wroteIn[sha256.Sum256(b)]; ok {
-					c["wc"] = wc
-				}
-				res = append(res, c)
-				found = c["tag"].(string)
+		// Pass 1: look every identifier up; identify the returned bytes at once AND keep the returned slices.
+		// Pass 2: a few goroutines look everything up concurrently and keep their slices too.
+		// Only then are the held slices identified again: bytes a lookup returned must not change afterwards
+		// (a result that is overwritten by a later lookup is a lookup that returned bytes never stored under
+		// that identifier).
+		type c16Got struct {
+			k          int
+			b          []byte
+			code, errs string
+			res        []interface{}
+		}
+		identify := func(b []byte) map[string]interface{} {
+			c := w.classify(b)
+			if wc, ok := wroteIn[sha256.Sum256(b)]; ok {
+				c["wc"] = wc
 			}
-			log("Get", map[string]interface{}{"id": id.J(), "via": "db"}, map[string]interface{}{"err": errs, "code": code, "res": res})
+			return c
+		}
+		fetch := func(k int) c16Got {
+			b, err := d.GetSignedVAABytes(vids[k])
+			g := c16Got{k: k, b: b, code: "OK"}
+			if err == ErrVAANotFound {
+				g.code, g.b = "NotFound", nil
+			} else if err != nil {
+				g.code, g.errs, g.b = "Error", shErrStr(err), nil
+			}
+			return g
+		}
+		pass1 := make([]c16Got, 0, len(ids))
+		for k := range ids {
+			g := fetch(k)
+			g.res = []interface{}{}
+			if g.b != nil {
+				g.res = append(g.res, identify(g.b))
+			}
+			pass1 = append(pass1, g)
+		}
+		const readers = 3
+		pass2 := make([][]c16Got, readers)
+		var rwg sync.WaitGroup
+		for r := 0; r < readers; r++ {
+			rwg.Add(1)
+			go func(r int) {
+				defer rwg.Done()
+				for i := range ids {
+					pass2[r] = append(pass2[r], fetch((i*7+r*13)%len(ids))) // 7 is coprime to the table size 44
+				}
+			}(r)
+		}
+		rwg.Wait()
+		held := func(b []byte) []interface{} {
+			if b == nil {
+				return []interface{}{}
+			}
+			return []interface{}{identify(b)}
+		}
+		for _, g := range pass1 {
+			log("Get", map[string]interface{}{"id": ids[g.k].J(), "via": "db", "pass": 1},
+				map[string]interface{}{"err": g.errs, "code": g.code, "res": g.res, "held": held(g.b)})
 			st.gets++
-			last[k] = found
+			last[g.k] = ""
+			if len(g.res) > 0 {
+				last[g.k] = g.res[0].(map[string]interface{})["tag"].(string)
+			}
+		}
+		for r := range pass2 {
+			for _, g := range pass2[r] {
+				h := held(g.b)
+				log("Get", map[string]interface{}{"id": ids[g.k].J(), "via": "db", "pass": 2, "reader": r},
+					map[string]interface{}{"err": g.errs, "code": g.code, "res": h, "held": h})
+				st.gets++
+			}
 		}
 		if attempted >= 0 { // statistic only: did the unacknowledged write survive the kill?
 			if last[attempted] == attemptedTag {
